@@ -49,8 +49,11 @@ class blockiterator(object):
         if padding:
             # lastblock counts bitlen from the first bit ever fed, this call's bitlen starts at 'start':
             if kargs.get('bitlen',None) is not None: kargs['bitlen'] = start+bitlen
+            cnt = self.bitcnt
             nPi = self.lastblock(Pi,**kargs)
             b,lastb= nPi[:self.blocklen],nPi[self.blocklen:]
+            # a tail without any message bit is a padding-only block:
+            if self.bitcnt==cnt: self.bitcnt = 0
             yield b
             if len(lastb)>0:
                 self.bitcnt = 0
